@@ -42,6 +42,8 @@ type Step struct {
 	From   int    `json:"from,omitempty"`
 	Batch  int    `json:"batch,omitempty"`
 	Tiny   bool   `json:"tiny,omitempty"` // R: one-field struct types (cheap to compile) instead of GenType
+	Mut    uint64 `json:"mut,omitempty"`  // U: damage the document (type mismatches and / or syntax errors), see c09t.Damage
+	Doc    string `json:"doc,omitempty"`  // U: use exactly this document
 }
 
 type Scenario struct {
@@ -61,12 +63,14 @@ var configs = []sonic.API{sonic.ConfigStd, sonic.ConfigDefault, sonic.ConfigFast
 
 func stepType(s Step) reflect.Type { return c09t.Wrap(c09t.TypeOf(s.T), s.W) }
 
+// the COMPLETE error is part of the result: dynamic type and Error() text (which carries the position, the expected
+// type and the offending value)
 func errClass(err error) string {
 	if err == nil {
 		return "ok"
 	}
 	t := reflect.TypeOf(err).String()
-	return "err:" + t
+	return "err:" + t + "=" + hex.EncodeToString([]byte(err.Error()))
 }
 
 // canonical JSON: key order of maps is not part of the observable under configs that do not sort
@@ -102,6 +106,11 @@ func doStep(s Step) string {
 		doc, err := json.Marshal(v)
 		if err != nil {
 			return "skip:" + err.Error()
+		}
+		if s.Doc != "" {
+			doc = []byte(s.Doc)
+		} else if s.Mut > 0 {
+			doc = c09t.Damage(doc, s.Mut)
 		}
 		dst := reflect.New(t)
 		err = configs[s.Cfg].Unmarshal(doc, dst.Interface())
@@ -321,7 +330,13 @@ func readable(s Step) string {
 	wr := []string{"%s", "*%s", "[]%s", "map[string]%s", "struct{X %s}", "[2]%s"}
 	switch s.Op {
 	case "M", "U":
-		return fmt.Sprintf("%s(cfg%d, "+wr[s.W]+", seed %d)", map[string]string{"M": "Marshal", "U": "Unmarshal"}[s.Op], s.Cfg, name(s.T), s.Seed)
+		extra := ""
+		if s.Doc != "" {
+			extra = ", doc " + s.Doc
+		} else if s.Mut > 0 {
+			extra = fmt.Sprintf(", damaged doc %d", s.Mut)
+		}
+		return fmt.Sprintf("%s(cfg%d, "+wr[s.W]+", seed %d%s)", map[string]string{"M": "Marshal", "U": "Unmarshal"}[s.Op], s.Cfg, name(s.T), s.Seed, extra)
 	case "P":
 		var ns []string
 		for _, t := range s.Ts {
@@ -356,6 +371,9 @@ func genProbe(r *rng.R, pool []int) Step {
 	}
 	if r.Chance(1, 2) {
 		s.W = 0
+	}
+	if s.Op == "U" && r.Chance(1, 2) {
+		s.Mut = 1 + r.U64()%100000
 	}
 	return s
 }
@@ -501,7 +519,7 @@ func histMain() {
 				if strings.HasPrefix(scs[i].ID, "heavy") {
 					continue
 				}
-				e := el[i%len(el)]
+				e := el[(i/2)%len(el)]
 				if i%2 == 0 || strings.HasSuffix(scs[i].ID, ".scenario") {
 					sc := scs[i]
 					sc.Env = e
